@@ -21,6 +21,17 @@ class P(framework.Prop):
             "2..3 followed by every infix operator, the same shapes nested in brackets/parentheses/arguments, plus seeded random chains; "
             "non-trivial = accepted sentence")
 
+    def spec_line(self, case):
+        """the reference parser decides sentencehood and the tree"""
+        if case.startswith("parse "):
+            return "refparse " + case[len("parse "):]
+        return None
+
+    def spec_equal(self, sobs, iobs):
+        if sobs.startswith("ERR parse") and iobs.startswith("ERR parse"):
+            return True
+        return framework.canon(sobs) == framework.canon(iobs)
+
     def cases(self, rng, tier):
         exprs = []
         for o1, o2 in itertools.product(INFIX, INFIX):
